@@ -213,6 +213,23 @@ impl Report {
         }
     }
 
+    /// move the violations and outcome counts of a sub-report (one case) into this report
+    pub fn drain_into(&self, main: &Report, case: &str) {
+        let v = std::mem::take(&mut *self.viols.lock().unwrap());
+        for (sig, viol) in v {
+            let (w, wit, rank) = (viol.what, viol.witness, viol.rank);
+            main.violation(&sig, rank, || (w, json!({"case": case, "witness": wit})));
+        }
+        let o = std::mem::take(&mut *self.outcomes.lock().unwrap());
+        let mut mo = main.outcomes.lock().unwrap();
+        for (k, n) in o {
+            *mo.entry(k).or_insert(0) += n;
+        }
+        for c in self.caps_hit.lock().unwrap().iter() {
+            main.cap(c);
+        }
+    }
+
     pub fn n_viol_sigs(&self) -> usize {
         self.viols.lock().unwrap().len()
     }
